@@ -199,7 +199,7 @@ fn check_case(ctx: &Ctx, stream: &str, idx: u64, case: &MergeCase, rng: &mut Rng
         ctx.count("cases_with_ties_among_3+_sources", 1);
     }
     ctx.tag("patterns", case.pattern);
-    ctx.tag("source_counts", &case.sources.len().min(8).to_string());
+    ctx.tag("source_counts", &if case.sources.len() > 256 { ">256".to_string() } else { case.sources.len().min(8).to_string() });
     ctx.tag("merge_functions", case.kind.name());
     ctx.tag("builder_paths", ["add", "push", "extend", "mixed add/push/extend"][case.path % 4]);
     // ties at a source's block edge
@@ -346,7 +346,21 @@ pub fn run(ctx: &Ctx) -> i32 {
         let case = gen_case(rng);
         check_case(ctx, "random", idx, &case, rng);
     });
+    // many sources (257..300): source positions beyond one byte
+    let n = ctx.n(6, 60);
+    ctx.par("many-sources", n, true, |idx, rng| {
+        let k = rng.range(257, 300);
+        let universe = rng.range(2, 12);
+        let mut sources = Vec::new();
+        for si in 0..k {
+            let entries: Vec<Entry> = (0..universe as u32).filter(|_| rng.chance(2, 3)).map(|ki| (ki.to_be_bytes().to_vec(), format!("<s{}k{}>", si, ki).into_bytes())).collect();
+            sources.push((WCfg::plain(), entries));
+        }
+        let case = MergeCase { shared_position: false, sources, kind: *rng.pick(&[MergeKind::Inject, MergeKind::Concat, MergeKind::First, MergeKind::Last]), pattern: "many-sources", path: rng.below(4000) };
+        check_case(ctx, "many-sources", idx, &case, rng);
+    });
     if ctx.only.is_none() {
+        ctx.obligation("more than 256 sources", ctx.has_tag("patterns", "many-sources"));
         ctx.obligation("ties among >= 3 sources", ctx.counter("cases_with_ties_among_3+_sources") > 0);
         ctx.obligation("ties at a source's block edge", ctx.counter("ties_at_a_source_block_edge") > 0);
         ctx.obligation("k = 0", ctx.has_tag("source_counts", "0"));
